@@ -960,6 +960,8 @@ class Tr:
                     walk(s[1][4])
                 elif s[0] == "expr" and s[1][0] == "foreach":
                     walk(self.desugar_foreach(s[1])[4])
+                elif s[0] == "expr" and s[1][0] == "fordown":
+                    walk(s[1][4])
                 elif s[0] == "expr" and s[1][0] == "mcall" and s[1][1][0] == "var" \
                         and 0 in self.sigs.get("U." + s[1][2], (0, 0, 0, 0, set()))[4]:
                     lhs(s[1][1])
@@ -972,8 +974,12 @@ class Tr:
         """`for x in xs { .. *x .. }` over a slice `xs` (also `xs.iter_mut()`, `&mut xs`):
         `for i_ in 0..xs.len() { .. xs[i_] .. }`.  The loop variable may shadow the slice's name."""
         x, src, body = e[1], e[2], e[3]
+        rev = False
         while True:
-            if src[0] == "mcall" and src[2] in ("iter_mut", "iter") and not src[3]:
+            if src[0] == "mcall" and src[2] == "rev" and not src[3]:
+                rev = not rev
+                src = src[1]
+            elif src[0] == "mcall" and src[2] in ("iter_mut", "iter") and not src[3]:
                 src = src[1]
             elif src[0] == "un" and src[1] in ("&", "*"):
                 src = src[2]
@@ -996,6 +1002,8 @@ class Tr:
             if t == ("var", x):
                 raise Unsupported("loop variable used without dereference while shadowing the slice")
             return tuple(sub(y) for y in t)
+        if rev:
+            return ("fordown", ix, ("mcall", src, "len", []), None, sub(body))
         return ("for", ix, ("num", 0, None), ("mcall", src, "len", []), sub(body))
 
     def kernel_targets(self, e, lhs):
@@ -1219,7 +1227,7 @@ class Tr:
                     " ".join(bh), w, paren(lo), paren(ah), cur, iv, st, pat, st, bcode, pat, w, rest(env))
             if e[0] == "foreach":
                 e = self.desugar_foreach(e)
-            if e[0] == "for":
+            if e[0] in ("for", "fordown"):
                 # `for i in LO..HI { body }`: the body runs for i = LO .. HI-1 on the tuple of the
                 # variables it assigns; LO and HI are evaluated once, before the loop
                 iv, body = e[1], e[4]
@@ -1232,7 +1240,7 @@ class Tr:
                     if v not in env:
                         raise Unsupported("assignment to undeclared " + v)
                 bl, al, _ = self.ex(f, e[2], env, "usize")
-                bh, ah, _ = self.ex(f, e[3], env, "usize")
+                bh, ah, _ = self.ex(f, e[3], env, "usize") if e[3] is not None else ([], None, None)
                 tup = lambda en: ("(" + ", ".join(en[v][0] for v in vs) + ")") if len(vs) != 1 else en[vs[0]][0]
                 pat = ("(" + ", ".join(vs) + ")") if len(vs) != 1 else vs[0]
                 if not vs:
@@ -1248,6 +1256,9 @@ class Tr:
                 env = dict(env)
                 for v in vs:
                     env[v] = (v, env[v][1])
+                if e[0] == "fordown":       # e[2] = trip count; i runs from count-1 down to 0
+                    return "%s do %s <- for_down (Z.to_nat %s) %s (fun %s %s => let '%s := %s in %s) ;\n  let '%s := %s in\n  %s" % (
+                        " ".join(bl), w, paren(al), cur, iv, st, pat, st, bcode, pat, w, rest(env))
                 return "%s do %s <- for_range %s %s %s (fun %s %s => let '%s := %s in %s) ;\n  let '%s := %s in\n  %s" % (
                     " ".join(bl + bh), w, paren(al), paren(ah), cur, iv, st, pat, st, bcode, pat, w, rest(env))
             if e[0] in ("call", "mcall"):            # value discarded
@@ -1383,6 +1394,9 @@ TARGETS = [
     ("src/algorithms/mul.rs", None, "addmul_nx1", "addmul_nx1", "g_addmul_nx1", None),
     ("src/algorithms/mul.rs", None, "submul_nx1", "submul_nx1", "g_submul_nx1", None),
     ("src/algorithms/shift.rs", None, "shift_left_small", "shift_left_small", "g_shift_left_small", None),
+    ("src/algorithms/shift.rs", None, "shift_right_small", "shift_right_small", "g_shift_right_small", None),
+    ("src/algorithms/div/small.rs", None, "div_nx1_normalized", "div_nx1_normalized", "g_div_nx1_normalized", None),
+    ("src/algorithms/div/small.rs", None, "div_nx2_normalized", "div_nx2_normalized", "g_div_nx2_normalized", None),
     # inherent methods of Uint<BITS, LIMBS>: generated with leading (BITS LIMBS : Z) parameters
     ("src/lib.rs", UINT_IMPL, "masked", "U.masked", "g_masked", "uint"),
     ("src/lib.rs", UINT_IMPL, "from_limbs", "U.from_limbs", "g_from_limbs", "uint"),
